@@ -41,7 +41,7 @@ def worker(i, q, out, lock):
                 res["verdict"] = "nocompile"; ok = False
         if ok:
             other = m["file"] == "node16_other.go"
-            tier = "thorough" if other else "quick"
+            tier = "thorough" if (other or os.environ.get("MUT_TIER") == "thorough") else "quick"
             rc, o = sh(f"/verif/bin/artcheck -sweep -tier {tier} -repo {w} -verif {v}", w, 300)
             line = (o.strip().splitlines() or [""])[0]
             if rc == 3:
